@@ -33,7 +33,10 @@ static void gen_pair(Ctx& c, uint64_t idx, Str* B, Str* R, const char** gen) {
     case 0: *gen = "uri"; *R = gen_uri(r); break;
     case 1: *gen = "dots"; o.scheme = 0; o.auth = 0; *R = gen_uri(r, o); break;
     case 2: *gen = "dots-any"; *R = gen_uri(r, o); break;
-    case 3: *gen = "same-scheme"; { Comp b; size_t e; if (dfa_uriref(*B, &e)) b = split(*B); o.scheme = 0; *R = (b.hasScheme ? b.scheme : Str("a")) + ":" + gen_uri(r, o); } break;
+    case 3: *gen = "same-scheme"; { Comp b; size_t e; if (dfa_uriref(*B, &e)) b = split(*B); o.scheme = 0; Str sc = b.hasScheme ? b.scheme : Str("a");
+        // identical, or nearly so: one letter in the other case, last character different, one character more / less
+        switch (r.below(6)) { case 0: { size_t q = r.below((uint32_t)sc.size()); if (isalpha((unsigned char)sc[q])) sc[q] = (char)(sc[q] ^ 0x20); } break; case 1: sc.back() = sc.back() == 'x' ? 'y' : 'x'; break; case 2: sc += "x"; break; case 3: if (sc.size() > 1) sc.pop_back(); break; default: break; }
+        *R = sc + ":" + gen_uri(r, o); } break;
     case 4: *gen = "rfc-examples"; { static const char* ex[] = {"g:h", "g", "./g", "g/", "/g", "//g", "?y", "g?y", "#s", "g#s", "g?y#s", ";x", "g;x", "g;x?y#s", "", ".", "./", "..", "../", "../g", "../..", "../../", "../../g",
                                        "../../../g", "../../../../g", "/./g", "/../g", "g.", ".g", "g..", "..g", "./../g", "./g/.", "g/./h", "g/../h", "g;x=1/./y", "g;x=1/../y", "g?y/./x", "g?y/../x", "g#s/./x", "g#s/../x", "http:g"};
                                        *R = ex[r.below(sizeof ex / sizeof ex[0])]; } break;
@@ -54,10 +57,11 @@ template <class X> void run(Ctx& c, const Str& Bs, const Str& Rs, const char* ge
     for (int variant = 0; variant < 4; variant++) {
         // 0: AddBaseUri, 1: Ex strict, 2: Ex compat, 3: ExMm (strict or compat)
         bool compat = variant == 2 || (variant == 3 && c.rng.coin());
+        // the option is the IDENTICAL-scheme compatibility option: "equals" is judged as character-for-character identity, so a reference
+        // whose scheme differs from the base's in letter case only keeps its scheme (counted, to show the case was exercised)
         if (compat && mr.hasScheme && mb.hasScheme && mr.scheme != mb.scheme) {
-            // schemes that differ only in letter case are not judged under the compat option
             Str a = mr.scheme, b = mb.scheme; for (auto& ch : a) ch = (char)tolower((unsigned char)ch); for (auto& ch : b) ch = (char)tolower((unsigned char)ch);
-            if (a == b) continue;
+            if (a == b) c.count("compat_schemes_differ_in_case_only");
         }
         Str snapB = deep_snapshot<X>(B.u), snapR = deep_snapshot<X>(R.u);
         UriBox<X> D; memset(&D.u, 0xEE, sizeof D.u); int rc;
